@@ -1,4 +1,1219 @@
-#[allow(dead_code, unused_imports, unused_variables, unused_mut)]
+// DNS resolver harnesses: C19 (plus the DNS parts of C13, C07, C03).
+// Spliced into src/socket/dns.rs: private fields of `Socket`, `DnsQuery`, `PendingQuery` and the
+// free functions `eq_names` / `copy_name` are reachable.
+//
+// `dns_process_<form>`: one pending query made through the real API, its private fields then
+// overwritten with symbolic values; the response is an RFC 1035 *byte template* written here
+// (concrete record layout per form, symbolic field values); every obligation is decided against a
+// reference evaluated on the raw template fields (`ref_names_eq` is an independent RFC 1035 4.1.4
+// name comparison, the crate's parser is not used by the oracle).
+#[allow(dead_code, unused_imports, unused_variables, unused_mut, unused_assignments)]
 mod v_socket_dns {
     use super::*;
+    use crate::iface::{Config, Interface};
+    use crate::phy::{ChecksumCapabilities, Medium};
+    use crate::verif_common::*;
+    use crate::verif_dev::NullDev;
+    use crate::wire::{HardwareAddress, IpCidr, Ipv4Address, Ipv4Repr, Ipv6Address, Ipv6Repr};
+
+    const LOCAL4: Ipv4Address = Ipv4Address::new(192, 168, 1, 1);
+    const LOCAL6: Ipv6Address = Ipv6Address::new(0x2001, 0xdb8, 0, 0, 0, 0, 0, 1);
+    const S4: Ipv4Address = Ipv4Address::new(8, 8, 8, 8);
+    const S6: Ipv6Address = Ipv6Address::new(0x2001, 0xdb8, 0, 0, 0, 0, 0, 0x53);
+
+    macro_rules! dns_env {
+        ($dev:ident, $iface:ident, $cx:ident, $now:ident) => {
+            let mut $dev = NullDev { medium: Medium::Ip, mtu: 1500, checksum: ChecksumCapabilities::ignored() };
+            let $now: i64 = kani::any();
+            kani::assume($now >= 0 && $now < (1i64 << 40));
+            let mut $iface = Interface::new(Config::new(HardwareAddress::Ip), &mut $dev, Instant::from_millis($now));
+            $iface.update_ip_addrs(|a| {
+                a.push(IpCidr::new(IpAddress::Ipv4(LOCAL4), 24)).unwrap();
+            });
+            let $cx = $iface.context();
+        };
+    }
+
+    fn any_ms_in(lo: i64, hi: i64) -> i64 {
+        let t: i64 = kani::any();
+        kani::assume(t >= lo && t <= hi);
+        t
+    }
+
+    fn pending_of<'s, 'a>(s: &'s mut Socket<'a>, i: usize) -> &'s mut PendingQuery {
+        match &mut s.queries[i].as_mut().unwrap().state {
+            State::Pending(pq) => pq,
+            _ => panic!("slot is not pending"),
+        }
+    }
+
+    fn type_val(is_a: bool) -> u16 {
+        if is_a { 1 } else { 28 }
+    }
+
+    // ------------------------------------------------------------------ RFC 1035 byte templates
+    const NB: usize = 64;
+    /// offset of the question name `[2, x, x, 1, x, 0]`, of its last label, of the first answer record
+    const QN_OFF: usize = 12;
+    const QSUF_OFF: usize = 15;
+    const ANS_OFF: usize = 22;
+
+    struct Tpl {
+        b: [u8; NB],
+        n: usize,
+    }
+    impl Tpl {
+        fn new() -> Tpl {
+            Tpl { b: [0; NB], n: 0 }
+        }
+        fn put(&mut self, v: u8) {
+            self.b[self.n] = v;
+            self.n += 1;
+        }
+        fn put16(&mut self, v: u16) {
+            self.put((v >> 8) as u8);
+            self.put(v as u8);
+        }
+        fn sym(&mut self) -> u8 {
+            let v: u8 = kani::any();
+            self.put(v);
+            v
+        }
+        fn sym16(&mut self) -> u16 {
+            let v: u16 = kani::any();
+            self.put16(v);
+            v
+        }
+    }
+
+    #[derive(Clone, Copy)]
+    struct Hdr {
+        id: u16,
+        flags: u16,
+        qd: u16,
+        an: u16,
+        rq: [u8; 3],
+        rqtype: u16,
+        rqclass: u16,
+    }
+
+    /// 12-byte header, every field symbolic, then one question `<2>xx<1>x<0> TYPE CLASS`
+    fn put_header_question(t: &mut Tpl) -> Hdr {
+        let id = t.sym16();
+        let flags = t.sym16();
+        let qd = t.sym16();
+        let an = t.sym16();
+        let _ns = t.sym16();
+        let _ar = t.sym16();
+        t.put(2);
+        let r0 = t.sym();
+        let r1 = t.sym();
+        t.put(1);
+        let r2 = t.sym();
+        t.put(0);
+        let rqtype = t.sym16();
+        let rqclass = t.sym16();
+        Hdr { id, flags, qd, an, rq: [r0, r1, r2], rqtype, rqclass }
+    }
+
+    /// owner-name form of an answer record (the case split of DESIGN.md C19)
+    #[derive(Clone, Copy, PartialEq, Eq)]
+    enum Owner {
+        /// `<2>xx<1>x<0>` with symbolic label bytes
+        Inline,
+        /// compression pointer to the question name (0xc00c)
+        PtrQ,
+        /// compression pointer to a symbolic 14-bit offset (forward, backward, self, out of range)
+        PtrSym,
+        /// compression pointer to itself
+        PtrSelf,
+        /// `<2>xx` then a compression pointer to a symbolic 14-bit offset
+        LabelPtr,
+    }
+
+    #[derive(Clone, Copy)]
+    struct RecT {
+        name_off: usize,
+        ty: u16,
+        class: u16,
+        rdlen: u16,
+        rd_off: usize,
+        rd_cap: usize,
+    }
+    const NOREC: RecT = RecT { name_off: 0, ty: 0, class: 0, rdlen: 0, rd_off: 0, rd_cap: 0 };
+
+    fn put_owner(t: &mut Tpl, o: Owner) {
+        match o {
+            Owner::Inline => {
+                t.put(2);
+                t.sym();
+                t.sym();
+                t.put(1);
+                t.sym();
+                t.put(0);
+            }
+            Owner::PtrQ => {
+                t.put(0xc0);
+                t.put(QN_OFF as u8);
+            }
+            Owner::PtrSym => {
+                let hi: u8 = kani::any();
+                t.put(0xc0 | hi);
+                t.sym();
+            }
+            Owner::PtrSelf => {
+                let at = t.n as u8;
+                t.put(0xc0);
+                t.put(at);
+            }
+            Owner::LabelPtr => {
+                t.put(2);
+                t.sym();
+                t.sym();
+                let hi: u8 = kani::any();
+                t.put(0xc0 | hi);
+                t.sym();
+            }
+        }
+    }
+
+    /// NAME TYPE CLASS TTL RDLENGTH RDATA; type, class, ttl, rdlength and `rd_cap` rdata bytes symbolic
+    fn put_record(t: &mut Tpl, o: Owner, rd_cap: usize) -> RecT {
+        let name_off = t.n;
+        put_owner(t, o);
+        let ty = t.sym16();
+        let class = t.sym16();
+        t.sym16();
+        t.sym16();
+        let rdlen = t.sym16();
+        let rd_off = t.n;
+        let mut i = 0;
+        while i < rd_cap {
+            t.sym();
+            i += 1;
+        }
+        RecT { name_off, ty, class, rdlen, rd_off, rd_cap }
+    }
+
+    /// CNAME record owned by the question name; RDATA = `<1>x` then a pointer with symbolic low byte
+    /// (0x0f: "x.c", 0x0c: "x.ab.c", its own offset: a loop, >= length: out of range, ...)
+    fn put_cname_record(t: &mut Tpl) -> RecT {
+        let name_off = t.n;
+        put_owner(t, Owner::PtrQ);
+        t.put16(5);
+        let class = t.sym16();
+        t.sym16();
+        t.sym16();
+        t.put16(4);
+        let rd_off = t.n;
+        t.put(1);
+        t.sym();
+        t.put(0xc0);
+        t.sym();
+        RecT { name_off, ty: 5, class, rdlen: 4, rd_off, rd_cap: 4 }
+    }
+
+    // ------------------------------------------------------------------ reference name comparison
+    const REF_HOPS: usize = 4;
+    const REF_LABELS: usize = 5;
+    const REF_LBL: usize = 3;
+
+    /// follow compression pointers from `pos`: (1, p) = a length octet sits at p; (0, _) = malformed
+    /// (outside the message); (2, _) = more than REF_HOPS hops (oracle gives up)
+    fn ref_resolve(m: &[u8; NB], n: usize, pos0: usize) -> (u8, usize) {
+        let mut pos = pos0;
+        let mut res = 2u8;
+        let mut fin = false;
+        let mut i = 0;
+        while i <= REF_HOPS {
+            if !fin {
+                if pos >= n {
+                    res = 0;
+                    fin = true;
+                } else {
+                    let x = m[pos];
+                    if x & 0xc0 == 0xc0 {
+                        if pos + 1 >= n {
+                            res = 0;
+                            fin = true;
+                        } else {
+                            pos = (((x & 0x3f) as usize) << 8) | (m[pos + 1] as usize);
+                        }
+                    } else {
+                        res = 1;
+                        fin = true;
+                    }
+                }
+            }
+            i += 1;
+        }
+        (res, pos)
+    }
+
+    /// RFC 1035 4.1.4: do the (possibly compressed) names at offsets `a0` and `b0` of message `m[..n]`
+    /// spell the same label sequence?  1 = yes, 0 = no / malformed, 2 = beyond the oracle's bounds
+    /// (> REF_HOPS consecutive pointers, > REF_LABELS labels, equal label lengths > REF_LBL)
+    fn ref_names_eq(m: &[u8; NB], n: usize, a0: usize, b0: usize) -> u8 {
+        let mut a = a0;
+        let mut b = b0;
+        let mut res = 2u8;
+        let mut done = false;
+        let mut l = 0;
+        while l < REF_LABELS {
+            if !done {
+                let (ka, pa) = ref_resolve(m, n, a);
+                let (kb, pb) = ref_resolve(m, n, b);
+                if ka == 0 || kb == 0 {
+                    res = 0;
+                    done = true;
+                } else if ka == 2 || kb == 2 {
+                    res = 2;
+                    done = true;
+                } else {
+                    let xa = m[pa];
+                    let xb = m[pb];
+                    let la = xa as usize;
+                    if xa & 0xc0 != 0 || xb & 0xc0 != 0 || xa != xb {
+                        res = 0;
+                        done = true;
+                    } else if xa == 0 {
+                        res = 1;
+                        done = true;
+                    } else if pa + 1 + la > n || pb + 1 + la > n {
+                        res = 0;
+                        done = true;
+                    } else if la > REF_LBL {
+                        res = 2;
+                        done = true;
+                    } else {
+                        let mut same = true;
+                        let mut k = 1;
+                        while k <= REF_LBL {
+                            if k <= la && m[pa + k] != m[pb + k] {
+                                same = false;
+                            }
+                            k += 1;
+                        }
+                        if !same {
+                            res = 0;
+                            done = true;
+                        } else {
+                            a = pa + 1 + la;
+                            b = pb + 1 + la;
+                        }
+                    }
+                }
+            }
+            l += 1;
+        }
+        res
+    }
+
+    // ------------------------------------------------------------------ process: one form
+    #[derive(Clone, Copy)]
+    struct Form {
+        nrec: usize,
+        o: [Owner; 2],
+        rd: [usize; 2],
+        /// record 0 is the concrete-layout CNAME record instead of `o[0]`
+        cname_first: bool,
+        /// payload handed to `process` is a symbolic-length prefix of the template
+        trunc: bool,
+        /// also demand that the canonical matching one-record response completes the query
+        complete: bool,
+    }
+
+    struct Out {
+        acc: bool,
+        completed: bool,
+        failed: bool,
+        naddr: usize,
+        id_ok: bool,
+        port_ok: bool,
+        question_ok: bool,
+        qr: bool,
+        rcode: u8,
+        an: u16,
+        cname_followed: bool,
+        other_name: bool,
+        name_changed: bool,
+        is_a: bool,
+        first_is_v4: bool,
+        ty0: u16,
+        ptr0: usize,
+    }
+
+    fn process_form(f: Form) -> Out {
+        dns_env!(dev, iface, cx, now);
+        let mut slots: [Option<DnsQuery>; 1] = [None];
+        let servers = [IpAddress::Ipv4(S4), IpAddress::Ipv6(S6)];
+        let mut s = Socket::new(&servers[..], &mut slots[..]);
+        let is_a: bool = kani::any();
+        let qtype = if is_a { Type::A } else { Type::Aaaa };
+        let h = s.start_query(cx, "ab.c", qtype).unwrap();
+
+        // private state as `dispatch` may have left it, identity fields arbitrary
+        let qn: [u8; 3] = kani::any();
+        let txid: u16 = kani::any();
+        let port: u16 = kani::any();
+        kani::assume(port > 1024);
+        let idx = any_lt(2);
+        let ta = if kani::any() { Some(Instant::from_millis(any_ms_in(0, now + 10_000))) } else { None };
+        let ra = Instant::from_millis(any_ms_in(0, now + 10_000));
+        let delay = Duration::from_millis(1000 + any_le(9000) as u64);
+        {
+            let pq = pending_of(&mut s, 0);
+            assert!(pq.name.as_slice() == &[2u8, b'a', b'b', 1, b'c', 0][..], "prop:c19_start_query_encodes_labels");
+            pq.name[1] = qn[0];
+            pq.name[2] = qn[1];
+            pq.name[4] = qn[2];
+            pq.txid = txid;
+            pq.port = port;
+            pq.server_idx = idx;
+            pq.timeout_at = ta;
+            pq.retransmit_at = ra;
+            pq.delay = delay;
+        }
+
+        // the response
+        let mut t = Tpl::new();
+        let hd = put_header_question(&mut t);
+        let mut recs = [NOREC; 2];
+        if f.nrec >= 1 {
+            recs[0] = if f.cname_first { put_cname_record(&mut t) } else { put_record(&mut t, f.o[0], f.rd[0]) };
+        }
+        if f.nrec >= 2 {
+            recs[1] = put_record(&mut t, f.o[1], f.rd[1]);
+        }
+        let full = t.n;
+        let m = t.b;
+        let n = if f.trunc { any_le(full) } else { full };
+
+        let sport: u16 = kani::any();
+        let dport: u16 = kani::any();
+        let v4: bool = kani::any();
+        let so: [u8; 4] = kani::any();
+        let s6lo: u16 = kani::any();
+        let ip_repr = if v4 {
+            IpRepr::Ipv4(Ipv4Repr {
+                src_addr: Ipv4Address::new(so[0], so[1], so[2], so[3]),
+                dst_addr: LOCAL4,
+                next_header: IpProtocol::Udp,
+                payload_len: 8 + n,
+                hop_limit: 64,
+            })
+        } else {
+            IpRepr::Ipv6(Ipv6Repr {
+                src_addr: Ipv6Address::new(0x2001, 0xdb8, 0, 0, 0, 0, 0, s6lo),
+                dst_addr: LOCAL6,
+                next_header: IpProtocol::Udp,
+                payload_len: 8 + n,
+                hop_limit: 64,
+            })
+        };
+        let udp_repr = UdpRepr { src_port: sport, dst_port: dport };
+        let from_server = if v4 { so[0] == 8 && so[1] == 8 && so[2] == 8 && so[3] == 8 } else { s6lo == 0x53 };
+        let acc_ref = (sport == 53 && from_server) || sport == 5353;
+
+        crate::vdump!("QUERY name=[2,{},{},1,{},0] type={} txid={:#x} port={} idx={} ta={:?} ra={:?} delay={:?}", qn[0], qn[1], qn[2], type_val(is_a), txid, port, idx, ta, ra, delay);
+        crate::vdump!("RESPONSE from {:?} sport={} dport={} len={} bytes={:02x?}", ip_repr.src_addr(), sport, dport, n, &m[..n]);
+
+        let acc = s.accepts(&ip_repr, &udp_repr);
+        assert!(acc == acc_ref, "prop:c19_accepts_only_port_53_of_configured_server_or_mdns_port");
+        if acc {
+            s.process(cx, &ip_repr, &udp_repr, &m[..n]);
+        }
+        crate::vdump!("POST accepted={} {:?}", acc, s.queries[0]);
+
+        // ---- reference on the raw template fields
+        let qr = hd.flags & 0x8000 != 0;
+        let rcode = (hd.flags & 0xf) as u8;
+        let id_ok = hd.id == txid;
+        let port_ok = dport == port;
+        let qname_ok = hd.qd == 1 && n >= ANS_OFF && hd.rq[0] == qn[0] && hd.rq[1] == qn[1] && hd.rq[2] == qn[2];
+        let qtype_ok = hd.rqtype == type_val(is_a);
+        // answer records whose owner is the queried name or the current end of the CNAME chain
+        let zero = IpAddress::Ipv4(Ipv4Address::new(0, 0, 0, 0));
+        let mut exp = [zero; 2];
+        let mut exp_n = 0usize;
+        let mut cur = QN_OFF;
+        let mut unknown = false;
+        let mut cname_followed = false;
+        let mut other_name = false;
+        // record i sits where the template put it only if every earlier RDLENGTH equals the template's RDATA size
+        let mut aligned = true;
+        let mut i = 0;
+        while i < f.nrec {
+            let r = recs[i];
+            if (i as u16) < hd.an && !aligned {
+                unknown = true;
+            }
+            if r.rdlen as usize != r.rd_cap {
+                aligned = false;
+            }
+            if (i as u16) < hd.an && !unknown && r.rd_off + (r.rdlen as usize) <= n {
+                let e = ref_names_eq(&m, n, r.name_off, cur);
+                if e == 2 {
+                    unknown = true;
+                } else if e == 0 {
+                    other_name = true;
+                } else if r.ty == 1 && r.rdlen == 4 {
+                    if exp_n < 2 {
+                        exp[exp_n] = IpAddress::Ipv4(Ipv4Address::new(m[r.rd_off], m[r.rd_off + 1], m[r.rd_off + 2], m[r.rd_off + 3]));
+                    }
+                    exp_n += 1;
+                } else if r.ty == 28 && r.rdlen == 16 {
+                    let mut o16 = [0u8; 16];
+                    let mut j = 0;
+                    while j < 16 {
+                        o16[j] = m[r.rd_off + j];
+                        j += 1;
+                    }
+                    if exp_n < 2 {
+                        exp[exp_n] = IpAddress::Ipv6(Ipv6Address::from_octets(o16));
+                    }
+                    exp_n += 1;
+                } else if r.ty == 5 {
+                    cur = r.rd_off;
+                    cname_followed = true;
+                }
+            }
+            i += 1;
+        }
+        if (hd.an as usize) > f.nrec && !aligned {
+            // further records may hide in what the template calls RDATA
+            unknown = true;
+        }
+
+        let mut out = Out {
+            acc, completed: false, failed: false, naddr: 0, id_ok, port_ok, question_ok: qname_ok && qtype_ok, qr, rcode,
+            an: hd.an, cname_followed, other_name, name_changed: false, is_a, first_is_v4: false, ty0: recs[0].ty,
+            ptr0: (((m[ANS_OFF] & 0x3f) as usize) << 8) | m[ANS_OFF + 1] as usize,
+        };
+        let q = s.queries[0].as_ref().unwrap();
+        match &q.state {
+            State::Pending(pq) => {
+                // not answered: nothing about the query may have moved
+                assert!(
+                    pq.txid == txid && pq.port == port && pq.type_ == qtype && pq.server_idx == idx,
+                    "prop:c19_rejected_response_leaves_query_identity_unchanged"
+                );
+                assert!(
+                    pq.timeout_at == ta && pq.retransmit_at == ra && pq.delay == delay,
+                    "prop:c19_rejected_response_leaves_query_timers_unchanged"
+                );
+                let same_name = pq.name.len() == 6
+                    && pq.name[0] == 2 && pq.name[1] == qn[0] && pq.name[2] == qn[1]
+                    && pq.name[3] == 1 && pq.name[4] == qn[2] && pq.name[5] == 0;
+                out.name_changed = !same_name;
+                assert!(same_name, "prop:c19_rejected_response_leaves_query_name_unchanged");
+                if f.complete {
+                    // the canonical answer (one A/AAAA record of the requested type owned by the queried name) is not ignored
+                    let r = recs[0];
+                    let owner_ok = match f.o[0] {
+                        Owner::PtrQ => true,
+                        Owner::Inline => m[r.name_off + 1] == qn[0] && m[r.name_off + 2] == qn[1] && m[r.name_off + 4] == qn[2],
+                        _ => false,
+                    };
+                    let canonical = acc && port_ok && id_ok && qr && (hd.flags >> 11) & 0xf == 0 && rcode != 3 && qname_ok && qtype_ok
+                        && hd.rqclass == 1 && hd.an == 1 && r.class == 1 && owner_ok && n == full
+                        && r.ty == type_val(is_a) && r.rdlen as usize == (if is_a { 4 } else { 16 });
+                    assert!(!canonical, "prop:c19_matching_response_completes_query");
+                }
+            }
+            State::Failure => {
+                out.failed = true;
+                assert!(acc && port_ok && id_ok && qr, "prop:c19_failure_only_from_matching_response");
+                assert!(rcode == 3 || (qname_ok && qtype_ok), "prop:c19_failure_only_nxdomain_or_answer_to_own_question");
+                if rcode != 3 && !unknown {
+                    assert!(exp_n == 0, "prop:c19_no_failure_when_response_carries_matching_address");
+                }
+            }
+            State::Completed(c) => {
+                out.completed = true;
+                let na = c.addresses.len();
+                out.naddr = na;
+                out.first_is_v4 = na > 0 && matches!(c.addresses[0], IpAddress::Ipv4(_));
+                assert!(acc_ref, "prop:c19_completes_only_from_server_port_53_or_mdns_port");
+                assert!(port_ok, "prop:c19_completes_only_at_query_source_port");
+                assert!(id_ok, "prop:c19_completes_only_with_query_transaction_id");
+                assert!(qr, "prop:c19_completes_only_from_a_response");
+                assert!(qname_ok, "prop:c19_completes_only_if_question_name_repeated");
+                assert!(qtype_ok, "prop:c19_completes_only_if_question_type_repeated");
+                kani::assume(!unknown);
+                assert!(na >= 1 && na <= DNS_MAX_RESULT_COUNT, "prop:c19_completed_query_has_addresses");
+                let k = any_lt(2);
+                if k < na {
+                    let a = c.addresses[k];
+                    assert!(
+                        (exp_n >= 1 && a == exp[0]) || (exp_n >= 2 && a == exp[1]),
+                        "prop:c19_result_address_from_record_of_queried_name_or_cname_target"
+                    );
+                    assert!(k < exp_n && a == exp[k], "prop:c19_result_lists_matching_records_in_order");
+                    assert!(matches!(a, IpAddress::Ipv4(_)) == is_a, "prop:c19_result_address_of_requested_type");
+                }
+                assert!(na == core::cmp::min(exp_n, 2), "prop:c19_result_lists_matching_records_in_order");
+            }
+        }
+        out
+    }
+
+    const F_ONE: Form = Form { nrec: 1, o: [Owner::PtrQ, Owner::PtrQ], rd: [16, 0], cname_first: false, trunc: false, complete: false };
+
+    // @harness props=C19,C03 cfg=KN tier=q to=900 mem=6 unwind=34 opts=nomem covers=6 funcs=dns::Socket::accepts;dns::Socket::process;dns::Socket::start_query;wire::dns::Packet::parse_name;wire::dns::Question::parse;wire::dns::Record::parse;dns::eq_names;dns::copy_name bounds=query_name_layout_<2>xx<1>x_symbolic_label_bytes;_type_A_or_AAAA;_50-byte_response_template:_all_header_fields_symbolic,_question_of_the_same_layout,_one_answer_record_owned_by_pointer_0xc00c_with_symbolic_TYPE/CLASS/TTL/RDLENGTH_and_16_symbolic_RDATA_bytes;_source_IPv4_any_or_2001:db8::x,_ports_any
+    #[kani::proof]
+    pub(crate) fn dns_process_ptrq() {
+        let o = process_form(Form { complete: true, ..F_ONE });
+        kani::cover!(o.completed && o.naddr == 1 && o.first_is_v4, "query completed with one IPv4 address");
+        kani::cover!(o.completed && !o.first_is_v4, "query completed with one IPv6 address");
+        kani::cover!(o.acc && !o.id_ok && !o.completed && !o.failed && o.port_ok && o.question_ok && o.qr, "response rejected: wrong id");
+        kani::cover!(o.acc && o.id_ok && !o.port_ok && !o.completed && !o.failed, "response rejected: wrong destination port");
+        kani::cover!(o.failed && o.rcode == 3, "NXDomain failed the query");
+        kani::cover!(o.failed && o.rcode == 0 && o.ty0 == 5, "lone CNAME answer failed the query");
+    }
+
+    // @harness props=C19,C03 cfg=KN tier=q to=900 mem=6 unwind=34 opts=nomem covers=3 funcs=dns::Socket::process;wire::dns::Packet::parse_name;wire::dns::Record::parse;dns::eq_names bounds=as_dns_process_ptrq_but_the_answer's_owner_name_is_written_inline_<2>xx<1>x<0>_with_symbolic_label_bytes_(54-byte_template)
+    #[kani::proof]
+    pub(crate) fn dns_process_inline() {
+        let o = process_form(Form { o: [Owner::Inline, Owner::PtrQ], complete: true, ..F_ONE });
+        kani::cover!(o.completed && o.naddr == 1, "query completed from inline owner name");
+        kani::cover!(o.failed && o.other_name && o.rcode == 0, "record for another name ignored");
+        kani::cover!(o.acc && !o.question_ok && o.id_ok && o.port_ok && o.qr && !o.completed && !o.failed, "response rejected: other question");
+    }
+
+    // @harness props=C19,C03,C07 cfg=KN tier=q to=1200 mem=8 unwind=34 opts=nomem covers=4 funcs=dns::Socket::process;wire::dns::Packet::parse_name;wire::dns::Record::parse;dns::eq_names;dns::copy_name bounds=as_dns_process_ptrq_but_the_answer's_owner_name_is_a_compression_pointer_to_any_14-bit_offset_(backward,_forward,_self,_out_of_range);_oracle_follows_<=4_consecutive_pointers_and_<=5_labels
+    #[kani::proof]
+    pub(crate) fn dns_process_ptrsym() {
+        let o = process_form(Form { o: [Owner::PtrSym, Owner::PtrQ], ..F_ONE });
+        kani::cover!(o.completed && o.ptr0 == QN_OFF, "completed through pointer to the question name");
+        kani::cover!(o.acc && o.id_ok && o.port_ok && o.question_ok && o.qr && o.an == 1 && o.ptr0 == ANS_OFF && !o.completed && !o.failed, "self-pointer: response dropped");
+        kani::cover!(o.acc && o.id_ok && o.port_ok && o.question_ok && o.qr && o.an == 1 && o.ptr0 > ANS_OFF + 12 && o.ptr0 < 50 && o.failed, "forward pointer into RDATA: other name ignored");
+        kani::cover!(o.failed && o.ptr0 == QSUF_OFF && o.rcode == 0, "pointer to a suffix of the question name ignored");
+    }
+
+    // @harness props=C19,C03,C07 cfg=KN tier=q to=600 mem=6 unwind=34 opts=nomem covers=2 funcs=dns::Socket::process;wire::dns::Packet::parse_name;dns::eq_names bounds=as_dns_process_ptrq_but_the_answer's_owner_name_is_a_compression_pointer_to_itself
+    #[kani::proof]
+    pub(crate) fn dns_process_ptrself() {
+        let o = process_form(Form { o: [Owner::PtrSelf, Owner::PtrQ], rd: [4, 0], ..F_ONE });
+        assert!(!o.completed, "prop:c19_self_pointer_never_completes_query");
+        kani::cover!(o.acc && o.id_ok && o.port_ok && o.question_ok && o.qr && o.an == 1 && !o.failed, "self-pointer: response dropped, query still pending");
+        kani::cover!(o.failed && o.an == 0, "answerless response failed the query");
+    }
+
+    // @harness props=C19,C03,C07 cfg=KN tier=q to=1200 mem=8 unwind=34 opts=nomem covers=3 funcs=dns::Socket::process;wire::dns::Packet::parse_name;wire::dns::Record::parse;dns::eq_names;dns::copy_name bounds=as_dns_process_ptrq_but_the_answer's_owner_name_is_<2>xx_followed_by_a_compression_pointer_to_any_14-bit_offset_(53-byte_template);_oracle_follows_<=4_consecutive_pointers_and_<=5_labels
+    #[kani::proof]
+    pub(crate) fn dns_process_labelptr() {
+        let o = process_form(Form { o: [Owner::LabelPtr, Owner::PtrQ], ..F_ONE });
+        kani::cover!(o.completed && o.naddr == 1, "completed through label + pointer to the question's last label");
+        kani::cover!(o.failed && o.other_name && o.rcode == 0, "label + pointer spelling another name ignored");
+        kani::cover!(o.acc && o.id_ok && o.port_ok && o.question_ok && o.qr && o.an == 1 && !o.completed && !o.failed, "malformed label + pointer: response dropped");
+    }
+
+    // @harness props=C19,C03 cfg=KN tier=q to=1200 mem=8 unwind=34 opts=nomem covers=4 funcs=dns::Socket::process;wire::dns::Packet::parse_name;wire::dns::Record::parse;dns::eq_names;dns::copy_name bounds=54-byte_template:_record_1_=_CNAME_owned_by_0xc00c_with_RDATA_<1>x+pointer_to_symbolic_low_byte;_record_2_owned_by_pointer_to_any_14-bit_offset,_symbolic_TYPE/CLASS/RDLENGTH,_4_RDATA_bytes_(A_only);_ANCOUNT_symbolic
+    #[kani::proof]
+    pub(crate) fn dns_process_cname_then() {
+        let o = process_form(Form { nrec: 2, o: [Owner::PtrQ, Owner::PtrSym], rd: [4, 4], cname_first: true, trunc: false, complete: false });
+        kani::cover!(o.completed && o.cname_followed && o.naddr == 1, "CNAME followed");
+        kani::cover!(o.failed && o.cname_followed && o.other_name && o.rcode == 0, "record for the original name after a CNAME ignored");
+        kani::cover!(o.acc && o.id_ok && o.port_ok && o.question_ok && o.qr && o.an == 2 && !o.completed && !o.failed, "CNAME then malformed record: response dropped");
+        kani::cover!(o.name_changed, "dropped response changed the pending query's name");
+    }
+
+    // @harness props=C19,C03 cfg=KN tier=q to=1200 mem=8 unwind=34 opts=nomem covers=3 funcs=dns::Socket::process;wire::dns::Packet::parse_name;wire::dns::Record::parse;dns::eq_names;dns::copy_name bounds=54-byte_template:_two_answer_records_owned_by_0xc00c_and_by_a_pointer_to_any_14-bit_offset,_each_with_symbolic_TYPE/CLASS/RDLENGTH_and_4_RDATA_bytes_(A_only);_ANCOUNT_symbolic
+    #[kani::proof]
+    pub(crate) fn dns_process_two_records() {
+        let o = process_form(Form { nrec: 2, o: [Owner::PtrQ, Owner::PtrSym], rd: [4, 4], cname_first: false, trunc: false, complete: false });
+        kani::cover!(o.completed && o.naddr == 2, "query completed with two addresses");
+        kani::cover!(o.completed && o.naddr == 1 && o.other_name, "second record for another name ignored");
+        kani::cover!(o.completed && o.an == 1, "record beyond ANCOUNT not used");
+    }
+
+    // @harness props=C19,C03,C07 cfg=KN tier=q to=1200 mem=8 unwind=34 opts=nomem covers=3 funcs=dns::Socket::process;wire::dns::Packet::new_checked;wire::dns::Question::parse;wire::dns::Record::parse bounds=dns_process_ptrq's_template_cut_to_any_length_0..=50
+    #[kani::proof]
+    pub(crate) fn dns_process_truncated() {
+        let o = process_form(Form { trunc: true, ..F_ONE });
+        kani::cover!(o.completed, "untruncated response completes");
+        kani::cover!(o.acc && o.id_ok && o.port_ok && o.qr && o.an == 1 && !o.completed && !o.failed, "truncated response dropped");
+        kani::cover!(o.failed && o.rcode == 3, "NXDomain in a bare header fails the query");
+    }
+
+    // @harness props=C19 kind=mustfail cfg=KN tier=q to=900 mem=6 unwind=34 opts=nomem
+    #[kani::proof]
+    pub(crate) fn dns_process_must_fail() {
+        let o = process_form(F_ONE);
+        assert!(!o.completed, "prop:deliberately_false_no_response_completes_a_query");
+    }
+
+    // ------------------------------------------------------------------ free bytes through the name parsers
+    // Bound: in `Packet::parse_name` every pointer jump needs >= 2 readable bytes and cuts the readable prefix to
+    // `packet[..ptr]` with `ptr < packet.len()`, so consecutive jump targets fall by >= 2: <= N/2+1 iterations of the
+    // inner loop per `next()`; every label consumes >= 2 bytes of a region and regions after a jump are disjoint:
+    // <= N labels; `parse_name_part` consumes >= 1 byte per iteration.  N = 16 => unwind N + 2.
+    // @harness props=C19,C07,C03 cfg=KN tier=q to=900 mem=6 unwind=18 opts=term covers=4 funcs=wire::dns::Packet::parse_name;wire::dns::Question::parse;wire::dns::Record::parse;wire::dns::RecordData::parse;wire::dns::parse_name_part bounds=message_of_0..=16_fully_symbolic_bytes;_name_/_question_/_record_parsed_from_any_offset;_unwind_18_=_N+2_(each_pointer_jump_shrinks_the_readable_prefix_by_>=2,_each_label_consumes_>=2_bytes)
+    #[kani::proof]
+    pub(crate) fn dns_name_parsers_free() {
+        const N: usize = 16;
+        let bytes: [u8; N] = kani::any();
+        let len = any_le(N);
+        let buf = &bytes[..len];
+        let p = Packet::new_unchecked(buf);
+        let start = any_le(len);
+        let mut labels = 0usize;
+        let mut label_bytes = 0usize;
+        let mut errored = false;
+        {
+            let mut it = p.parse_name(&buf[start..]);
+            loop {
+                match it.next() {
+                    None => break,
+                    Some(Err(_)) => {
+                        errored = true;
+                        break;
+                    }
+                    Some(Ok(l)) => {
+                        assert!(l.len() >= 1 && l.len() <= 63, "prop:c07_dns_label_length_1_to_63");
+                        labels += 1;
+                        label_bytes += 1 + l.len();
+                    }
+                }
+            }
+        }
+        assert!(label_bytes <= 2 * len, "prop:c07_dns_name_bytes_bounded_by_message");
+        let mut q_ok = false;
+        if let Ok((rest, q)) = Question::parse(&buf[start..]) {
+            q_ok = true;
+            assert!(q.name.len() >= 1 && q.name.len() + 4 + rest.len() == len - start, "prop:c07_dns_question_accounts_for_every_byte");
+        }
+        let mut r_ok = false;
+        if let Ok((rest, r)) = Record::parse(&buf[start..]) {
+            r_ok = true;
+            let dl = match r.data {
+                RecordData::A(_) => 4,
+                RecordData::Aaaa(_) => 16,
+                RecordData::Cname(d) => d.len(),
+                RecordData::Other(_, d) => d.len(),
+            };
+            assert!(r.name.len() >= 1 && r.name.len() + 10 + dl + rest.len() == len - start, "prop:c07_dns_record_accounts_for_every_byte");
+        }
+        kani::cover!(start < len && !errored && labels >= 2 && bytes[start] >= 0xc0 && start >= 6, "compressed name of two labels iterated");
+        kani::cover!(errored && len >= 2 && start + 1 < len && bytes[start] == 0xc0 && bytes[start + 1] as usize == start, "self-pointer rejected");
+        kani::cover!(q_ok && start == 0 && len == N, "question parsed");
+        kani::cover!(r_ok && matches!(Record::parse(&buf[start..]), Ok((_, Record { data: RecordData::A(_), .. }))), "A record parsed");
+    }
+
+    // @harness props=C19,C07,C03 cfg=KN tier=q to=900 mem=6 unwind=16 opts=term covers=3 funcs=dns::copy_name;dns::eq_names;wire::dns::Packet::parse_name bounds=message_of_0..=12_fully_symbolic_bytes;_name_at_any_offset_copied_into_a_64-byte_name_buffer_and_compared_with_itself;_unwind_16
+    #[kani::proof]
+    pub(crate) fn dns_name_copy_free() {
+        const N: usize = 12;
+        let bytes: [u8; N] = kani::any();
+        let len = any_le(N);
+        let buf = &bytes[..len];
+        let p = Packet::new_unchecked(buf);
+        let start = any_le(len);
+        let mut dest: Vec<u8, DNS_MAX_NAME_SIZE> = Vec::new();
+        let r = copy_name(&mut dest, p.parse_name(&buf[start..]));
+        let mut nlabels = 0usize;
+        if r.is_ok() {
+            // the stored name is uncompressed and well formed: it means the same in every later message
+            let dl = dest.len();
+            assert!(dl >= 1 && dl <= 2 * N + 1 && dest[dl - 1] == 0, "prop:c19_copied_name_is_terminated");
+            let mut pos = 0usize;
+            let mut fin = false;
+            let mut i = 0;
+            while i <= N {
+                if !fin {
+                    let x = dest[pos];
+                    assert!(x & 0xc0 == 0, "prop:c19_copied_name_has_no_compression_pointers");
+                    if x == 0 {
+                        assert!(pos == dl - 1, "prop:c19_copied_name_has_single_terminator");
+                        fin = true;
+                    } else {
+                        nlabels += 1;
+                        pos += 1 + x as usize;
+                        assert!(pos < dl, "prop:c19_copied_name_labels_inside_buffer");
+                    }
+                }
+                i += 1;
+            }
+            assert!(fin, "prop:c19_copied_name_is_terminated");
+            let e = eq_names(p.parse_name(&dest), p.parse_name(&buf[start..]));
+            assert!(matches!(e, Ok(true)), "prop:c19_copied_name_spells_the_same_name");
+        }
+        kani::cover!(start < len && r.is_ok() && nlabels >= 2 && bytes[start] >= 0xc0, "compressed two-label name copied");
+        kani::cover!(r.is_err() && len >= 2, "malformed name rejected");
+        kani::cover!(r.is_ok() && dest.len() == 1, "root name copied");
+    }
+
+    // ------------------------------------------------------------------ dispatch / poll_at
+    struct DPre {
+        ns: usize,
+        servers: [IpAddress; 2],
+        mdns: bool,
+        is_a: bool,
+        qn: [u8; 3],
+        txid: u16,
+        port: u16,
+        idx: usize,
+        ta: Option<i64>,
+        ra: i64,
+        delay: u64,
+    }
+
+    fn any_v4() -> IpAddress {
+        let o: [u8; 4] = kani::any();
+        IpAddress::Ipv4(Ipv4Address::new(o[0], o[1], o[2], o[3]))
+    }
+
+    /// Overwrite the fresh query in slot 0 with an arbitrary state a history of dispatches can leave.
+    fn any_pending(s: &mut Socket, now: i64, ns: usize, servers: [IpAddress; 2], is_a: bool) -> DPre {
+        let qn: [u8; 3] = kani::any();
+        let txid: u16 = kani::any();
+        let port: u16 = kani::any();
+        kani::assume(port > 1024);
+        let mdns: bool = kani::any();
+        let eff_n = if mdns { 2 } else { ns };
+        let fresh: bool = kani::any();
+        let idx = any_lt(2);
+        let delay = 1000 + any_le(9000) as u64;
+        let ra = any_ms_in(0, now + 10_000);
+        let tav = any_ms_in(0, now + 10_000);
+        let ta = if fresh { None } else { Some(tav) };
+        if fresh {
+            // as start_query leaves it
+            kani::assume(idx == 0 && delay == 1000 && ra == 0);
+        } else {
+            // a dispatch that left the query pending found idx < servers; retransmit_at = an earlier now + an earlier delay
+            kani::assume(idx < eff_n);
+            kani::assume(ra <= now + delay as i64);
+        }
+        let pq = pending_of(s, 0);
+        pq.name[1] = qn[0];
+        pq.name[2] = qn[1];
+        pq.name[4] = qn[2];
+        pq.txid = txid;
+        pq.port = port;
+        pq.server_idx = idx;
+        pq.timeout_at = ta.map(Instant::from_millis);
+        pq.retransmit_at = Instant::from_millis(ra);
+        pq.delay = Duration::from_millis(delay);
+        pq.mdns = if mdns { MulticastDns::Enabled } else { MulticastDns::Disabled };
+        DPre { ns, servers, mdns, is_a, qn, txid, port, idx, ta, ra, delay }
+    }
+
+    fn unspec(a: &IpAddress) -> bool {
+        match a {
+            IpAddress::Ipv4(x) => x.octets() == [0, 0, 0, 0],
+            IpAddress::Ipv6(x) => x.octets() == [0u8; 16],
+        }
+    }
+
+    const QLEN: usize = 22; // 12-byte header + <2>xx<1>x<0> + TYPE + CLASS
+
+    struct Emit {
+        seen: bool,
+        dst: IpAddress,
+        src: IpAddress,
+        sport: u16,
+        dport: u16,
+        len: usize,
+        iplen: usize,
+        hop: u8,
+        bytes: [u8; QLEN + 2],
+    }
+
+    // @harness props=C19,C13 cfg=KN tier=q to=900 mem=6 unwind=26 opts=nomem covers=6 funcs=dns::Socket::dispatch;wire::dns::Repr::emit;wire::dns::Question::emit;InterfaceInner::get_source_address bounds=one_pending_query_(name_<2>xx<1>x,_A/AAAA,_unicast_or_mDNS)_in_any_state_a_dispatch_history_can_leave:_server_idx<servers,_delay_1..10_s,_timeout_at/retransmit_at_anywhere_up_to_now+10_s;_0..=2_IPv4_servers_with_symbolic_octets;_now<2^40_ms;_emit_returns_symbolic_Ok/Err
+    #[kani::proof]
+    pub(crate) fn dns_dispatch_step() {
+        dns_env!(dev, iface, cx, now);
+        let mut slots: [Option<DnsQuery>; 1] = [None];
+        let servers = [any_v4(), any_v4()];
+        let ns = any_le(2);
+        let mut s = Socket::new(&servers[..ns], &mut slots[..]);
+        let is_a: bool = kani::any();
+        let _h = s.start_query(cx, "ab.c", if is_a { Type::A } else { Type::Aaaa }).unwrap();
+        let g = any_pending(&mut s, now, ns, servers, is_a);
+        crate::vdump!("PRE now={} servers={:?} {:?}", now, &servers[..ns], s.queries[0]);
+
+        let zero = IpAddress::Ipv4(Ipv4Address::new(0, 0, 0, 0));
+        let mut e = Emit { seen: false, dst: zero, src: zero, sport: 0, dport: 0, len: 0, iplen: 0, hop: 0, bytes: [0; QLEN + 2] };
+        let emit_ok: bool = kani::any();
+        let res = s.dispatch(cx, |_cx, (ip, udp, payload)| {
+            e.seen = true;
+            e.dst = ip.dst_addr();
+            e.src = ip.src_addr();
+            e.sport = udp.src_port;
+            e.dport = udp.dst_port;
+            e.len = payload.len();
+            e.iplen = ip.payload_len();
+            e.hop = ip.hop_limit();
+            let mut i = 0;
+            while i < QLEN + 2 {
+                if i < payload.len() {
+                    e.bytes[i] = payload[i];
+                }
+                i += 1;
+            }
+            if emit_ok { Ok(()) } else { Err(()) }
+        });
+        crate::vdump!("EMIT seen={} ok={} dst={:?}:{} sport={} len={} bytes={:02x?} res={:?}", e.seen, emit_ok, e.dst, e.dport, e.sport, e.len, &e.bytes[..], res);
+        crate::vdump!("POST {:?}", s.queries[0]);
+
+        // reference
+        let eff = if g.mdns { [MDNS_IPV6_ADDR, MDNS_IPV4_ADDR] } else { servers };
+        let eff_n = if g.mdns { 2 } else { ns };
+        let ta_eff = match g.ta { Some(t) => t, None => now + 10_000 };
+        let timed_out = ta_eff < now; // "after 10 s"
+        let idx1 = g.idx + timed_out as usize;
+        let ra_eff = if timed_out { 0 } else { g.ra };
+        let delay_eff = if timed_out { 1000 } else { g.delay };
+
+        assert!(res.is_ok() == (emit_ok || !e.seen), "prop:c09_emit_error_passed_through");
+        let q = s.queries[0].as_ref().unwrap();
+        let mut failed = false;
+        match &q.state {
+            State::Completed(_) => assert!(false, "prop:c19_dispatch_never_completes_a_query"),
+            State::Failure => {
+                failed = true;
+                assert!(!e.seen, "prop:c19_failed_query_transmits_nothing");
+                assert!(idx1 >= eff_n || unspec(&eff[idx1]), "prop:c19_failure_only_when_servers_exhausted_or_unusable");
+            }
+            State::Pending(pq) => {
+                assert!(idx1 < eff_n, "prop:c19_fails_when_servers_exhausted");
+                assert!(pq.server_idx == idx1, "prop:c19_next_server_exactly_after_timeout");
+                let ta1 = if timed_out { now + 10_000 } else { ta_eff };
+                assert!(pq.timeout_at == Some(Instant::from_millis(ta1)), "prop:c19_timeout_armed_10s_per_server");
+                // identity never changes
+                assert!(
+                    pq.txid == g.txid && pq.port == g.port && pq.type_ == (if is_a { Type::A } else { Type::Aaaa })
+                        && pq.name.len() == 6 && pq.name[1] == g.qn[0] && pq.name[2] == g.qn[1] && pq.name[4] == g.qn[2],
+                    "prop:c19_dispatch_keeps_query_identity"
+                );
+                let ra1 = pq.retransmit_at.total_millis();
+                let d1 = pq.delay.total_millis();
+                if e.seen {
+                    assert!(now >= g.ra || timed_out, "prop:c19_transmits_only_at_or_after_retransmit_at");
+                    assert!(e.dst == eff[idx1], "prop:c19_query_sent_to_current_server");
+                    assert!(e.dport == (if g.mdns { 5353 } else { 53 }), "prop:c19_query_sent_to_port_53_or_mdns_port");
+                    assert!(e.sport == g.port, "prop:c19_query_sent_from_query_port");
+                    assert!(e.len == QLEN && e.iplen == 8 + QLEN, "prop:c19_query_length");
+                    let ty = type_val(is_a);
+                    let want: [u8; QLEN] = [
+                        (g.txid >> 8) as u8, g.txid as u8, 0x01, 0x00, 0, 1, 0, 0, 0, 0, 0, 0,
+                        2, g.qn[0], g.qn[1], 1, g.qn[2], 0, (ty >> 8) as u8, ty as u8, 0, 1,
+                    ];
+                    let k = any_lt(QLEN);
+                    assert!(e.bytes[k] == want[k], "prop:c19_query_carries_txid_name_type");
+                    assert!(matches!(e.src, IpAddress::Ipv4(_)) == matches!(e.dst, IpAddress::Ipv4(_)), "prop:c10_source_address_family");
+                    if emit_ok {
+                        // back-off: next retransmission after the current delay, delay doubled up to the cap
+                        assert!(ra1 == now + delay_eff as i64, "prop:c19_retransmission_scheduled_after_current_delay");
+                        assert!(d1 == core::cmp::min(2 * delay_eff, 10_000), "prop:c19_delay_doubles_up_to_cap");
+                        // ranking argument: at a deadline either a server is consumed, or the per-server timeout instant
+                        // stays put while the next deadline moves strictly (>= 1 s) forward and is <= 10 s away
+                        let dec = (idx1 > g.idx) || (idx1 == g.idx && ta1 == ta_eff && ra1 >= now + 1000);
+                        assert!(dec && ra1 <= now + 10_000, "prop:c19_progress_measure_decreases");
+                    } else {
+                        assert!(ra1 == ra_eff && d1 == delay_eff && ra1 <= now, "prop:c19_emit_error_leaves_query_due");
+                    }
+                } else {
+                    assert!(now < ra_eff, "prop:c19_due_query_is_transmitted");
+                    assert!(ra1 == ra_eff && d1 == delay_eff, "prop:c19_waiting_query_unchanged");
+                }
+            }
+        }
+        if timed_out {
+            // fail-over: the pair (servers left, time to timeout) drops in its first component
+            assert!(failed || idx1 == g.idx + 1, "prop:c19_progress_measure_decreases");
+        }
+        kani::cover!(e.seen && emit_ok && g.ta.is_none(), "first transmission of a fresh query");
+        kani::cover!(e.seen && emit_ok && !timed_out && g.ta.is_some() && g.delay == 8000, "retransmission, delay capped at 10 s");
+        kani::cover!(e.seen && timed_out && idx1 == 1 && !g.mdns, "timeout: query sent to the next server");
+        kani::cover!(failed && timed_out && !g.mdns && ns == 2, "timeout on the last server: query failed");
+        kani::cover!(e.seen && g.mdns && matches!(e.dst, IpAddress::Ipv6(_)), "mDNS query to ff02::fb");
+        kani::cover!(e.seen && !emit_ok, "device refused the packet");
+    }
+
+    // @harness props=C19,C13 cfg=KN tier=q to=900 mem=6 unwind=26 opts=nomem covers=4 funcs=dns::Socket::poll_at;dns::Socket::dispatch bounds=pre-states_of_dns_dispatch_step;_probe_instant_anywhere_relative_to_poll_at
+    #[kani::proof]
+    pub(crate) fn dns_poll_at_step() {
+        dns_env!(dev, iface, cx, now);
+        let mut slots: [Option<DnsQuery>; 1] = [None];
+        let servers = [any_v4(), any_v4()];
+        let ns = any_le(2);
+        let mut s = Socket::new(&servers[..ns], &mut slots[..]);
+        let is_a: bool = kani::any();
+        let _h = s.start_query(cx, "ab.c", if is_a { Type::A } else { Type::Aaaa }).unwrap();
+        let g = any_pending(&mut s, now, ns, servers, is_a);
+        crate::vdump!("PRE now={} servers={:?} {:?}", now, &servers[..ns], s.queries[0]);
+        let nowi = Instant::from_millis(now);
+        let d = s.poll_at(cx);
+        assert!(d != PollAt::Ingress, "prop:c19_pending_query_has_finite_deadline");
+        let early = match d {
+            PollAt::Ingress => true,
+            PollAt::Time(t) => nowi < t,
+            PollAt::Now => false,
+        };
+        let mut called = false;
+        let emit_ok: bool = kani::any();
+        let _ = s.dispatch(cx, |_cx, (_ip, _udp, _payload)| {
+            called = true;
+            if emit_ok { Ok(()) } else { Err(()) }
+        });
+        crate::vdump!("poll_at={:?} early={} emit called={} POST {:?}", d, early, called, s.queries[0]);
+        let q = s.queries[0].as_ref().unwrap();
+        if early {
+            // polling before the deadline transmits nothing and changes no protocol state
+            assert!(!called, "prop:c13_nothing_sent_before_poll_at");
+            match &q.state {
+                State::Pending(pq) => {
+                    assert!(
+                        pq.server_idx == g.idx && pq.retransmit_at == Instant::from_millis(g.ra) && pq.delay == Duration::from_millis(g.delay)
+                            && pq.timeout_at == g.ta.map(Instant::from_millis),
+                        "prop:c13_no_state_change_before_poll_at"
+                    );
+                }
+                _ => assert!(false, "prop:c13_no_state_change_before_poll_at"),
+            }
+        }
+        let after = s.poll_at(cx);
+        if !called {
+            // non-spinning: a poll that sent nothing leaves a deadline strictly in the future, or none
+            match after {
+                PollAt::Now => assert!(false, "prop:c13_idle_poll_leaves_future_deadline"),
+                PollAt::Time(t) => assert!(t > nowi, "prop:c13_idle_poll_leaves_future_deadline"),
+                PollAt::Ingress => {}
+            }
+        }
+        if called && emit_ok {
+            // after a transmission the next deadline is finite, later than now and at most 10 s away
+            match after {
+                PollAt::Time(t) => assert!(t > nowi && t <= nowi + MAX_RETRANSMIT_DELAY, "prop:c19_retransmission_deadline_within_cap"),
+                _ => assert!(false, "prop:c19_retransmission_deadline_within_cap"),
+            }
+        }
+        kani::cover!(early && matches!(q.state, State::Pending(_)), "polled before the retransmission deadline");
+        kani::cover!(!early && called && g.ta.is_some(), "deadline reached: query retransmitted");
+        kani::cover!(!called && after == PollAt::Ingress, "query failed: no deadline left");
+        kani::cover!(!called && matches!(after, PollAt::Time(_)), "idle poll with future deadline");
+    }
+
+    // ------------------------------------------------------------------ application interface
+    /// `core::str::from_utf8` runs an alignment-dependent fast path that Kani can only treat as symbolic;
+    /// the harnesses below only ever build strings from the ASCII bytes `a..z` and `.`
+    #[allow(unsafe_code)]
+    fn ascii_str(b: &[u8]) -> &str {
+        unsafe { core::str::from_utf8_unchecked(b) }
+    }
+
+    fn is_lc(c: u8) -> bool {
+        c >= b'a' && c <= b'z'
+    }
+
+    // @harness props=C19 cfg=KN tier=q to=900 mem=6 unwind=12 opts=nomem covers=6 funcs=dns::Socket::start_query;dns::Socket::start_query_raw;dns::Socket::get_query_result;dns::Socket::cancel_query;dns::Socket::find_free_query bounds=socket_with_2_query_slots,_slot_0_Pending/Completed(1..2_addresses)/Failed,_slot_1_free_or_taken;_new_name_of_0..=6_symbolic_bytes_from_[a-z.]
+    #[kani::proof]
+    pub(crate) fn dns_api_step() {
+        dns_env!(dev, iface, cx, now);
+        let mut slots: [Option<DnsQuery>; 2] = [None, None];
+        let servers = [IpAddress::Ipv4(S4)];
+        let mut s = Socket::new(&servers[..], &mut slots[..]);
+        let h0 = s.start_query(cx, "ab.c", Type::A).unwrap();
+        assert!(h0.0 == 0 && s.queries[1].is_none(), "prop:c19_first_query_takes_first_free_slot");
+        let (txid0, port0) = {
+            let pq = pending_of(&mut s, 0);
+            (pq.txid, pq.port)
+        };
+        // slot 0 in any of its three states
+        let st: u8 = kani::any();
+        kani::assume(st <= 2);
+        let a0 = any_v4();
+        let a1 = any_v4();
+        let two: bool = kani::any();
+        if st == 1 {
+            let mut addresses = Vec::new();
+            addresses.push(a0).unwrap();
+            if two {
+                addresses.push(a1).unwrap();
+            }
+            s.queries[0].as_mut().unwrap().state = State::Completed(CompletedQuery { addresses });
+        } else if st == 2 {
+            s.queries[0].as_mut().unwrap().state = State::Failure;
+        }
+        let which: u8 = kani::any();
+        kani::assume(which <= 2);
+        let mut started = false;
+        let mut invalid_seen = false;
+        let mut nofree_seen = false;
+        if which == 0 {
+            // ---- start_query with an arbitrary short name, second slot free or taken
+            let full: bool = kani::any();
+            if full {
+                let h1 = s.start_query(cx, "x.y", Type::Aaaa).unwrap();
+                assert!(h1.0 == 1, "prop:c19_query_takes_first_free_slot");
+            }
+            const L: usize = 6;
+            let nb: [u8; L] = kani::any();
+            let nl = any_le(L);
+            let mut i = 0;
+            while i < L {
+                kani::assume(nb[i] == b'.' || is_lc(nb[i]));
+                i += 1;
+            }
+            let name = ascii_str(&nb[..nl]);
+            let r = s.start_query(cx, name, Type::Aaaa);
+            // reference: one trailing dot is dropped, then every label must be non-empty
+            let el = if nl > 0 && nb[nl - 1] == b'.' { nl - 1 } else { nl };
+            let mut invalid = nl == 0 || el == 0 || nb[0] == b'.' || nb[el - 1] == b'.';
+            let mut i = 0;
+            while i + 1 < L {
+                if i + 1 < el && nb[i] == b'.' && nb[i + 1] == b'.' {
+                    invalid = true;
+                }
+                i += 1;
+            }
+            // RFC 6762: the only name of <= 6 bytes whose last label is "local" is "local" itself
+            let is_local = el == 5 && nb[0] == b'l' && nb[1] == b'o' && nb[2] == b'c' && nb[3] == b'a' && nb[4] == b'l';
+            crate::vdump!("start_query({:?}) full={} -> {:?}", name, full, r.as_ref().map(|h| h.0));
+            match r {
+                Err(StartQueryError::InvalidName) => {
+                    invalid_seen = true;
+                    assert!(invalid, "prop:c19_only_empty_labels_are_invalid");
+                }
+                Err(StartQueryError::NoFreeSlot) => {
+                    nofree_seen = true;
+                    assert!(!invalid && full, "prop:c19_no_free_slot_only_when_full");
+                }
+                Err(StartQueryError::NameTooLong) => assert!(false, "prop:c19_short_name_is_not_too_long"),
+                Ok(h) => {
+                    started = true;
+                    assert!(!invalid && !full && h.0 == 1, "prop:c19_valid_name_starts_query_in_free_slot");
+                    let pq = pending_of(&mut s, 1);
+                    // wire encoding: a length octet in front of every label, zero at the end
+                    assert!(pq.name.len() == el + 2 && pq.name[el + 1] == 0, "prop:c19_start_query_encodes_labels");
+                    let k = any_lt(L + 1);
+                    if k <= el {
+                        // position k of the encoding is nb[k-1], or the length of the label starting at nb[k]
+                        if k >= 1 && nb[k - 1] != b'.' {
+                            assert!(pq.name[k] == nb[k - 1], "prop:c19_start_query_encodes_labels");
+                        } else if k < el {
+                            let mut ll = 0usize;
+                            let mut open = true;
+                            let mut j = 0;
+                            while j < L {
+                                if j >= k && j < el && open {
+                                    if nb[j] == b'.' {
+                                        open = false;
+                                    } else {
+                                        ll += 1;
+                                    }
+                                }
+                                j += 1;
+                            }
+                            assert!(pq.name[k] as usize == ll, "prop:c19_start_query_encodes_labels");
+                        }
+                    }
+                    assert!(
+                        pq.type_ == Type::Aaaa && pq.server_idx == 0 && pq.timeout_at.is_none() && pq.delay == RETRANSMIT_DELAY
+                            && pq.retransmit_at <= Instant::from_millis(now) && matches!(pq.mdns, MulticastDns::Enabled) == is_local,
+                        "prop:c19_new_query_is_due_at_first_server"
+                    );
+                }
+            }
+            if full && !started {
+                assert!(matches!(s.queries[1], Some(DnsQuery { state: State::Pending(_), .. })), "prop:c19_failed_start_leaves_other_queries_alone");
+            }
+            // slot 0 is never disturbed
+            let q0 = s.queries[0].as_ref().unwrap();
+            match &q0.state {
+                State::Pending(pq) => assert!(
+                    st == 0 && pq.txid == txid0 && pq.port == port0 && pq.name.as_slice() == &[2u8, b'a', b'b', 1, b'c', 0][..],
+                    "prop:c19_failed_start_leaves_other_queries_alone"
+                ),
+                State::Completed(c) => assert!(
+                    st == 1 && c.addresses.len() == 1 + two as usize && c.addresses[0] == a0,
+                    "prop:c19_failed_start_leaves_other_queries_alone"
+                ),
+                State::Failure => assert!(st == 2, "prop:c19_failed_start_leaves_other_queries_alone"),
+            }
+        } else if which == 1 {
+            // ---- get_query_result
+            match s.get_query_result(h0) {
+                Err(GetQueryResultError::Pending) => {
+                    assert!(st == 0, "prop:c19_pending_reported_only_while_pending");
+                    assert!(s.queries[0].is_some(), "prop:c19_pending_query_keeps_its_slot");
+                    let pq = pending_of(&mut s, 0);
+                    assert!(pq.txid == txid0 && pq.port == port0, "prop:c19_pending_query_keeps_its_slot");
+                }
+                Err(GetQueryResultError::Failed) => {
+                    assert!(st == 2, "prop:c19_failed_reported_only_after_failure");
+                    assert!(s.queries[0].is_none(), "prop:c19_finished_query_frees_its_slot");
+                }
+                Ok(addrs) => {
+                    assert!(st == 1, "prop:c19_addresses_reported_only_after_completion");
+                    assert!(addrs.len() == 1 + two as usize && addrs[0] == a0 && (!two || addrs[1] == a1), "prop:c19_result_is_the_stored_address_list");
+                    assert!(s.queries[0].is_none(), "prop:c19_finished_query_frees_its_slot");
+                }
+            }
+            if st != 0 {
+                let h = s.start_query(cx, "de.f", Type::A).unwrap();
+                assert!(h.0 == 0, "prop:c19_freed_slot_is_reused");
+            }
+        } else {
+            // ---- cancel_query
+            s.cancel_query(h0);
+            assert!(s.queries[0].is_none(), "prop:c19_cancel_frees_the_slot");
+            let h = s.start_query(cx, "de.f", Type::A).unwrap();
+            assert!(h.0 == 0, "prop:c19_freed_slot_is_reused");
+        }
+        kani::cover!(started, "second query started");
+        kani::cover!(invalid_seen, "name with an empty label rejected");
+        kani::cover!(nofree_seen, "full socket refused a query");
+        kani::cover!(which == 1 && st == 1 && two, "two addresses handed out");
+        kani::cover!(which == 1 && st == 0, "result not ready");
+        kani::cover!(which == 2 && st == 0, "pending query cancelled");
+    }
+
+    // @harness props=C19 cfg=KN tier=q to=600 mem=6 unwind=70 opts=nomem covers=2 funcs=dns::Socket::start_query;dns::Socket::start_query_raw bounds=concrete_names_around_the_limits:_label_of_63_/_64_bytes,_encoded_name_of_64_/_65_/_67_bytes_with_DNS_MAX_NAME_SIZE=64,_.local_suffix
+    #[kani::proof]
+    pub(crate) fn dns_api_long_names() {
+        dns_env!(dev, iface, cx, now);
+        let mut slots: [Option<DnsQuery>; 1] = [None];
+        let servers = [IpAddress::Ipv4(S4)];
+        let mut s = Socket::new(&servers[..], &mut slots[..]);
+        let a = [b'a'; 66];
+        let mut b = [b'a'; 66];
+        b[63] = b'.';
+        let s62 = ascii_str(&a[..DNS_MAX_NAME_SIZE - 2]);
+        let s63 = ascii_str(&a[..63]);
+        let s64 = ascii_str(&a[..64]);
+        let s63_1 = ascii_str(&b[..65]); // 63 x 'a' + ".a"
+        assert!(DNS_MAX_NAME_SIZE == 64, "inv:harness_written_for_DNS_MAX_NAME_SIZE_64");
+        // a label of more than 63 bytes cannot be encoded
+        assert!(matches!(s.start_query(cx, s64, Type::A), Err(StartQueryError::InvalidName)), "prop:c19_label_over_63_bytes_is_invalid");
+        // encodings longer than DNS_MAX_NAME_SIZE are refused, and no slot is taken
+        assert!(matches!(s.start_query(cx, s63, Type::A), Err(StartQueryError::NameTooLong)), "prop:c19_name_over_max_size_is_too_long");
+        assert!(matches!(s.start_query(cx, s63_1, Type::A), Err(StartQueryError::NameTooLong)), "prop:c19_name_over_max_size_is_too_long");
+        assert!(s.queries[0].is_none(), "prop:c19_refused_name_takes_no_slot");
+        let raw = [1u8; 66];
+        assert!(
+            matches!(s.start_query_raw(cx, &raw[..DNS_MAX_NAME_SIZE + 1], Type::A, MulticastDns::Disabled), Err(StartQueryError::NameTooLong)),
+            "prop:c19_name_over_max_size_is_too_long"
+        );
+        assert!(s.queries[0].is_none(), "prop:c19_refused_name_takes_no_slot");
+        // exactly DNS_MAX_NAME_SIZE fits
+        let h = s.start_query(cx, s62, Type::A);
+        assert!(matches!(h, Ok(QueryHandle(0))), "prop:c19_name_of_max_size_accepted");
+        {
+            let pq = pending_of(&mut s, 0);
+            assert!(pq.name.len() == DNS_MAX_NAME_SIZE && pq.name[0] == 62 && pq.name[DNS_MAX_NAME_SIZE - 1] == 0, "prop:c19_start_query_encodes_labels");
+        }
+        kani::cover!(s.queries[0].is_some(), "maximal name accepted");
+        s.cancel_query(QueryHandle(0));
+        // RFC 6762: names under .local are multicast queries
+        let _ = s.start_query(cx, "ab.local", Type::A).unwrap();
+        {
+            let pq = pending_of(&mut s, 0);
+            assert!(matches!(pq.mdns, MulticastDns::Enabled), "prop:c19_local_names_use_mdns");
+            kani::cover!(pq.name.len() == 10, ".local query started");
+        }
+    }
 }
